@@ -66,9 +66,12 @@ Lemma read_write_suplinks nv l rest :
 Proof.
   intros Hn Hl. rewrite Forall_forall in Hl. unfold read_suplinks, write_suplinks.
   rewrite <- app_assoc. rewrite read_put_varint31 by assumption.
-  apply read_list_rt.
-  - intros; apply read_write_suplink, Hl; assumption.
-  - intros; apply write_suplink_nonempty.
+  replace (len (concat (map write_suplink l) ++ rest) <? len l) with false.
+  - apply read_list_rt.
+    + intros; apply read_write_suplink, Hl; assumption.
+    + intros; apply write_suplink_nonempty.
+  - symmetry. apply N.ltb_ge. unfold len. rewrite app_length.
+    pose proof (concat_map_len write_suplink l (fun a _ => write_suplink_nonempty a)). lia.
 Qed.
 
 (* ------------------------------------------------------------------ headers *)
